@@ -66,7 +66,7 @@ impl Stats {
         }
     }
     pub fn outcome(&mut self, h: u64) {
-        if self.outcomes.len() < 100_000 {
+        if self.outcomes.len() < 2_000_000 {
             self.outcomes.insert(h);
         }
     }
@@ -91,7 +91,7 @@ impl Stats {
             }
         }
         for h in o.outcomes {
-            if self.outcomes.len() < 1_000_000 {
+            if self.outcomes.len() < 4_000_000 {
                 self.outcomes.insert(h);
             }
         }
@@ -188,6 +188,33 @@ impl Plan {
             finish: None,
         }
     }
+}
+
+thread_local! {
+    static OBS: std::cell::RefCell<BTreeSet<u64>> = std::cell::RefCell::new(BTreeSet::new());
+}
+
+/// Records one observed outcome (hash) from anywhere inside a unit.
+pub fn obs(h: u64) {
+    OBS.with(|o| {
+        let mut o = o.borrow_mut();
+        if o.len() < 200_000 {
+            o.insert(h);
+        }
+    });
+}
+
+/// Hash of a result list, for `obs`.
+pub fn hash_kvs(kvs: &[(Vec<u8>, u64)]) -> u64 {
+    let mut h: u64 = 0xcbf29ce484222325;
+    for (k, v) in kvs {
+        for &b in k {
+            h = (h ^ b as u64).wrapping_mul(0x100000001b3);
+        }
+        h = (h ^ 0xff).wrapping_mul(0x100000001b3);
+        h = (h ^ *v).wrapping_mul(0x100000001b3);
+    }
+    h
 }
 
 thread_local! {
@@ -293,6 +320,11 @@ pub fn drive(plan: Plan, tier: Tier) -> ! {
                     }
                     let u = &plan.units[i];
                     let r = catch_unwind(AssertUnwindSafe(|| (u.run)(&mut st, &rep)));
+                    OBS.with(|o| {
+                        for h in std::mem::take(&mut *o.borrow_mut()) {
+                            st.outcome(h);
+                        }
+                    });
                     if r.is_err() {
                         rep.violation(
                             format!("unit-panic {}", u.name),
